@@ -114,6 +114,15 @@ def _row_keys(n, rng, full):
                 keys.append({"t": "vec", "es": b, "dtype": "bool"})
     for es in ([0], [-1, 0], [n], [n - 1, 0, 0], [-n - 1], []):
         keys.append({"t": "vec", "es": es, "dtype": "int"})
+    # keys that are no row selection at all: a nullable mask, a list of positions, a list with a None, an untyped empty vector,
+    # a float, None — each must be refused (an error), not answered with None
+    keys.append({"t": "vec", "es": [True, None, False][:max(n, 2)]})
+    keys.append({"t": "vec", "es": [None] * n})
+    keys.append({"t": "list", "es": [0, n - 1] if n else [0]})
+    keys.append({"t": "list", "es": [True, None][:max(n, 1)] + [False] * max(0, n - 2)})
+    keys.append({"t": "vec", "es": []})
+    keys.append({"t": "other", "v": 1.5})
+    keys.append({"t": "other", "v": None})
     return keys
 
 
